@@ -69,11 +69,19 @@ def gate_helper_summary(fb, fn):
         cfg = m.cfg
         # blocks that assign _0 = Ok(..)
         ok_blocks, err_blocks = [], []
+        # the return place and the locals that are only moved into it (`_0 = move _r` at a merge point)
+        rets = {0}
+        for _ in range(3):
+            for b in fn.blocks:
+                for st in b["stmts"]:
+                    if st["k"] == "assign" and st["lhs"]["l"] in rets and not st["lhs"]["p"] and st["rv"]["k"] == "use" and \
+                            st["rv"]["op"]["k"] in ("copy", "move") and not st["rv"]["op"]["pl"]["p"]:
+                        rets.add(st["rv"]["op"]["pl"]["l"])
         for bi, b in enumerate(fn.blocks):
             if b["cleanup"]:
                 continue
             for st in b["stmts"]:
-                if st["k"] == "assign" and st["lhs"]["l"] == 0 and not st["lhs"]["p"]:
+                if st["k"] == "assign" and st["lhs"]["l"] in rets and not st["lhs"]["p"]:
                     rv = st["rv"]
                     if rv["k"] == "agg" and rv.get("adt", "").endswith("result::Result"):
                         (ok_blocks if rv["variant"] == "Ok" else err_blocks).append(bi)
